@@ -1,6 +1,8 @@
 // Glue between the library under test and the reference model.
 #pragma once
 #include <SQuIDS/SUNalg.h>
+#include <SQuIDS/const.h>
+#include <map>
 #include <gsl/gsl_matrix.h>
 #include <gsl/gsl_errno.h>
 #include "ref.hpp"
@@ -79,6 +81,53 @@ inline void pollute(int d) {
     }
   } catch (const std::exception&) {}
 }
+
+// ---- calls made while namespace-scope objects are being initialised ----
+// A global table of constant operators or a solver object at namespace scope is ordinary use, and the harness objects are
+// linked before the library's: whatever the library needs must not depend on its own dynamic initialisers having run.
+// A harness that defines VF_EARLY before including this header evaluates the batteries below from a namespace-scope
+// initialiser; check_early() re-evaluates them from main() and compares bit for bit (differential oracle: the later call
+// is the one the enumerations of that property check against the reference model).
+inline std::vector<double> early_battery(int cat) {
+  std::vector<double> out; auto put = [&](const SU_vector& v) { for (unsigned i = 0; i < v.Size(); i++) out.push_back(v[i]); };
+  try {
+    for (int d = 2; d <= 6; d++) {
+      SU_vector a = mkvec(d, probe(d, 0)), b = mkvec(d, probe(d, 1));
+      GslMat Hd(d, d); for (int i = 0; i < d; i++) gsl_matrix_complex_set(Hd.g, i, i, gsl_complex_rect(0.4 * i - 0.1 * i * i + 0.05, 0));
+      switch (cat) {
+        case 1: { auto m = a.GetGSLMatrix(); for (int i = 0; i < d; i++) for (int j = 0; j < d; j++) { gsl_complex z = gsl_matrix_complex_get(m.get(), i, j); out.push_back(GSL_REAL(z)); out.push_back(GSL_IMAG(z)); }
+          SU_vector r(m.get()); put(r); SU_vector s = a + b; put(s); SU_vector t = a * 2.5; put(t); SU_vector n = -a; put(n); std::vector<double> c = a.GetComponents(); SU_vector l(c); put(l);
+          SU_vector tr = a; tr.Transpose(); put(tr); SU_vector re = a.Real(); put(re); SU_vector im = a.Imag(); put(im); } break;
+        case 2: { SU_vector c(squids::iCommutator(a, b)); put(c); SU_vector e(squids::ACommutator(a, b)); put(e); out.push_back(a * b); } break;
+        case 3: { SU_vector H(Hd.g); SU_vector e = a.Evolve(H, 0.7); put(e); std::vector<double> buf(d * (d - 1)); H.PrepareEvolve(buf.data(), -1.3); SU_vector e2 = a.Evolve(buf.data()); put(e2); } break;
+        case 6: { SU_vector r = a.Rotate(0, d - 1, 0.4, 1.1); put(r); squids::Const par; par.SetMixingAngle(0, 1, 0.6); par.SetPhase(0, 1, 0.3); if (d > 2) par.SetMixingAngle(1, 2, -0.8);
+          SU_vector v1 = a; v1.RotateToB1(par); put(v1); SU_vector v0 = a; v0.RotateToB0(par); put(v0); auto U = par.GetTransformationMatrix(d); SU_vector u = a.UTransform(U.get()); put(u); SU_vector w = a.UDaggerTransform(U.get()); put(w); SU_vector x = a.Rotate(U.get()); put(x); } break;
+        case 7: { SU_vector e = a.UTransform(b, gsl_complex_rect(0, 0.37)); put(e); SU_vector f = b.UTransform(a, gsl_complex_rect(0.2, -1.9)); put(f); } break;
+        case 11: { SU_vector H(Hd.g); int np = d * (d - 1) / 2; std::vector<double> buf(2 * np); std::vector<bool> avr(np);
+          H.PrepareEvolve(buf.data(), 2.0, 0.37, avr); out.insert(out.end(), buf.begin(), buf.end()); for (bool f : avr) out.push_back(f);
+          H.PrepareEvolve(buf.data(), 0.5, 10.0); out.insert(out.end(), buf.begin(), buf.end());
+          H.PrepareEvolve(buf.data(), 1.0); H.LowPassFilter(buf.data(), 0.5, 0.1); out.insert(out.end(), buf.begin(), buf.end());
+          H.PrepareEvolve(buf.data(), 1.0); H.AvgRampFilter(buf.data(), 1.0, 0.5, 0.1); out.insert(out.end(), buf.begin(), buf.end()); } break;
+        case 12: { auto es = a.GetEigenSystem(true); for (int i = 0; i < d; i++) out.push_back(gsl_vector_get(es.first.get(), i));
+          for (int i = 0; i < d; i++) for (int j = 0; j < d; j++) { gsl_complex z = gsl_matrix_complex_get(es.second.get(), i, j); out.push_back(GSL_REAL(z)); out.push_back(GSL_IMAG(z)); } } break;
+      }
+    }
+  } catch (const std::exception&) { out.push_back(-12345.678); }
+  return out;
+}
+struct EarlyResults { std::map<int, std::vector<double>> r; EarlyResults() { gsl_set_error_handler_off(); for (int c : {1, 2, 3, 6, 7, 11, 12}) r[c] = early_battery(c); } };
+#ifdef VF_EARLY
+static const EarlyResults g_early_results;
+inline void check_early(std::initializer_list<int> cats) {
+  static const char* NM[] = {"", "conversions-and-linear-operations", "commutators-and-trace", "evolution", "", "", "rotations-and-basis-changes", "exponential-transform", "", "", "", "averaging-tables-and-filters", "eigen-decomposition"};
+  for (int c : cats) {
+    std::vector<double> now = early_battery(c); const std::vector<double>& then = g_early_results.r.at(c);
+    count("evaluations"); count("values_compared_with_static_initialisation_time_calls", (long long)now.size());
+    bool same = now.size() == then.size(); size_t bad = 0; for (size_t i = 0; same && i < now.size(); i++) if (!ref::biteq(now[i], then[i]) && !(std::isnan(now[i]) && std::isnan(then[i]))) { same = false; bad = i; }
+    if (!same) violation(std::string("called-during-static-initialisation:") + NM[c] + ":differs-from-later-call", J().i("battery", c).i("first_differing_value", (long long)bad).num("early", bad < then.size() ? then[bad] : NAN).num("later", bad < now.size() ? now[bad] : NAN).done());
+  }
+}
+#endif
 
 inline void maybe_pollute(int d, long every = 61) { static long n = 0; if (++n % every == 0) pollute(d); }
 
